@@ -98,6 +98,9 @@ def defaultMode (link file : Bool) : Nat :=
 /-- `MemfsEntryOpts::mode(Option<u32>)` given the current flags -/
 def optsMode (link file dir : Bool) (mode : Option Nat) : Nat :=
   let m := mode.getD (defaultMode link file)
+  -- only the permission bits of the given mode count (as for chmod(2)); the file type bits are
+  -- those of the entry itself
+  let m := if link ∨ file ∨ dir then m &&& 0o7777 else m
   if link then m ||| 0o120000 else if file then m ||| 0o100000 else if dir then m ||| 0o40000 else m
 
 /-- `MemfsEntry::opts(path).mode(mode).build()` (what `_mkdir_m` creates) -/
